@@ -43,6 +43,9 @@ class DynamicPGMIndex {
     class ItemA;
     class ItemB;
     class Iterator;
+#ifdef PGM_INDEX_VERIF
+    friend struct pgm::verif::Access;
+#endif
 
     using Item = std::conditional_t<std::is_pointer_v<V> || std::is_arithmetic_v<V>, ItemA, ItemB>;
     using Level = std::vector<Item>;
